@@ -287,14 +287,29 @@ class PitScenario:
         self.loop.drain()
         assert self.face.running
         self.twin = None
-        if self.b.spec.get('twin') and self.fe.name == 'v2':
+        if self.b.spec.get('twin'):
             # a second application object in the same process, with a face of its own: it sends one Interest on a name the
             # scenario uses and never hears anything; whatever happens to the first application is none of its business
             face2 = HFace()
             app2 = self.fe.make_app(face2)
             main2 = self.loop.create_task(app2.main_loop())
             self.loop.drain()
-            coro = self.fe.express(app2, enc.Name.from_str(self.b.interests[0]['name']), can_be_prefix=True, lifetime=1, nonce=4242)
+            if self.fe.name == 'v2':
+                coro = self.fe.express(app2, enc.Name.from_str(self.b.interests[0]['name']), can_be_prefix=True, lifetime=1, nonce=4242)
+            else:
+                # the legacy call sends nothing before it is awaited: a task of the twin awaits it right away, with a lifetime that
+                # outlasts the scenario
+                self.twin_res = {}
+
+                async def twin_caller():
+                    try:
+                        await self.fe.express(app2, enc.Name.from_str(self.b.interests[0]['name']), can_be_prefix=True, lifetime=600000, nonce=4242)
+                        self.twin_res['o'] = 'data'
+                    except BaseException as e:  # noqa
+                        self.twin_res['o'] = exc_class(e)
+                self.loop.create_task(twin_caller())
+                self.loop.drain()
+                coro = None
             self.twin = (app2, face2, main2, coro)
 
     def label_of(self, name, content):
@@ -443,8 +458,11 @@ class PitScenario:
                     res['o'] = 'data'
                 except BaseException as e:  # noqa
                     res['o'] = exc_class(e)
-            loop.create_task(wait_twin())
+            if coro is not None:
+                loop.create_task(wait_twin())
             loop.settle()
+            if coro is None:
+                res = self.twin_res
             obs['twin'] = (res.get('o'), len(face2.sent))
             app2.shutdown()
             loop.settle()
